@@ -34,11 +34,11 @@ Lemma PadToFullSector_skel_ok : map shape C14gen.PadToFullSector = expected_PadT
 Lemma findSpace_skel_ok : map shape C14gen.findSpace = expected_findSpace. Proof. reflexivity. Qed.
 Lemma setHead_skel_ok : map shape C14gen.setHead = expected_setHead. Proof. reflexivity. Qed.
 Lemma Region_fields_skel_ok : C14gen.Region_fields = expected_Region_fields. Proof. reflexivity. Qed.
-Lemma writeAt_skel_ok : C14gen.writeAt_text = expected_writeAt_text. Proof. reflexivity. Qed.
+Lemma writeAt_skel_ok : map shape C14gen.writeAt = expected_writeAt. Proof. reflexivity. Qed.
 
 (* ------------------------------------------------------------------ 2. interpretation *)
 (* the integer locals: a record, so that states are compared syntactically *)
-Record vars := mkvars { v_x : Z; v_z : Z; v_need : Z; v_n : Z; v_now : Z; v_sec : Z; v_num : Z; v_length : Z; v_size : Z; v_i : Z; v_o : Z; v_s : Z; v_v : Z; v_offset : Z; v_timestamp : Z; v_oldN : Z; v_oldNow : Z }.
+Record vars := mkvars { v_x : Z; v_z : Z; v_need : Z; v_n : Z; v_now : Z; v_sec : Z; v_num : Z; v_length : Z; v_size : Z; v_i : Z; v_o : Z; v_s : Z; v_v : Z; v_offset : Z; v_timestamp : Z; v_oldN : Z; v_oldNow : Z; v_off : Z }.
 Definition getv (r : vars) (x : rvar) : Z :=
   match x with
   | Vx => v_x r
@@ -58,30 +58,32 @@ Definition getv (r : vars) (x : rvar) : Z :=
   | Vtimestamp => v_timestamp r
   | VoldN => v_oldN r
   | VoldNow => v_oldNow r
+  | Voff => v_off r
   | VlenData | Vtab => 0
   end.
 Definition setv (r : vars) (x : rvar) (a : Z) : vars :=
   match x with
-  | Vx => mkvars a (v_z r) (v_need r) (v_n r) (v_now r) (v_sec r) (v_num r) (v_length r) (v_size r) (v_i r) (v_o r) (v_s r) (v_v r) (v_offset r) (v_timestamp r) (v_oldN r) (v_oldNow r)
-  | Vz => mkvars (v_x r) a (v_need r) (v_n r) (v_now r) (v_sec r) (v_num r) (v_length r) (v_size r) (v_i r) (v_o r) (v_s r) (v_v r) (v_offset r) (v_timestamp r) (v_oldN r) (v_oldNow r)
-  | Vneed => mkvars (v_x r) (v_z r) a (v_n r) (v_now r) (v_sec r) (v_num r) (v_length r) (v_size r) (v_i r) (v_o r) (v_s r) (v_v r) (v_offset r) (v_timestamp r) (v_oldN r) (v_oldNow r)
-  | Vn => mkvars (v_x r) (v_z r) (v_need r) a (v_now r) (v_sec r) (v_num r) (v_length r) (v_size r) (v_i r) (v_o r) (v_s r) (v_v r) (v_offset r) (v_timestamp r) (v_oldN r) (v_oldNow r)
-  | Vnow => mkvars (v_x r) (v_z r) (v_need r) (v_n r) a (v_sec r) (v_num r) (v_length r) (v_size r) (v_i r) (v_o r) (v_s r) (v_v r) (v_offset r) (v_timestamp r) (v_oldN r) (v_oldNow r)
-  | Vsec => mkvars (v_x r) (v_z r) (v_need r) (v_n r) (v_now r) a (v_num r) (v_length r) (v_size r) (v_i r) (v_o r) (v_s r) (v_v r) (v_offset r) (v_timestamp r) (v_oldN r) (v_oldNow r)
-  | Vnum => mkvars (v_x r) (v_z r) (v_need r) (v_n r) (v_now r) (v_sec r) a (v_length r) (v_size r) (v_i r) (v_o r) (v_s r) (v_v r) (v_offset r) (v_timestamp r) (v_oldN r) (v_oldNow r)
-  | Vlength => mkvars (v_x r) (v_z r) (v_need r) (v_n r) (v_now r) (v_sec r) (v_num r) a (v_size r) (v_i r) (v_o r) (v_s r) (v_v r) (v_offset r) (v_timestamp r) (v_oldN r) (v_oldNow r)
-  | Vsize => mkvars (v_x r) (v_z r) (v_need r) (v_n r) (v_now r) (v_sec r) (v_num r) (v_length r) a (v_i r) (v_o r) (v_s r) (v_v r) (v_offset r) (v_timestamp r) (v_oldN r) (v_oldNow r)
-  | Vi => mkvars (v_x r) (v_z r) (v_need r) (v_n r) (v_now r) (v_sec r) (v_num r) (v_length r) (v_size r) a (v_o r) (v_s r) (v_v r) (v_offset r) (v_timestamp r) (v_oldN r) (v_oldNow r)
-  | Vo => mkvars (v_x r) (v_z r) (v_need r) (v_n r) (v_now r) (v_sec r) (v_num r) (v_length r) (v_size r) (v_i r) a (v_s r) (v_v r) (v_offset r) (v_timestamp r) (v_oldN r) (v_oldNow r)
-  | Vs => mkvars (v_x r) (v_z r) (v_need r) (v_n r) (v_now r) (v_sec r) (v_num r) (v_length r) (v_size r) (v_i r) (v_o r) a (v_v r) (v_offset r) (v_timestamp r) (v_oldN r) (v_oldNow r)
-  | Vv => mkvars (v_x r) (v_z r) (v_need r) (v_n r) (v_now r) (v_sec r) (v_num r) (v_length r) (v_size r) (v_i r) (v_o r) (v_s r) a (v_offset r) (v_timestamp r) (v_oldN r) (v_oldNow r)
-  | Voffset => mkvars (v_x r) (v_z r) (v_need r) (v_n r) (v_now r) (v_sec r) (v_num r) (v_length r) (v_size r) (v_i r) (v_o r) (v_s r) (v_v r) a (v_timestamp r) (v_oldN r) (v_oldNow r)
-  | Vtimestamp => mkvars (v_x r) (v_z r) (v_need r) (v_n r) (v_now r) (v_sec r) (v_num r) (v_length r) (v_size r) (v_i r) (v_o r) (v_s r) (v_v r) (v_offset r) a (v_oldN r) (v_oldNow r)
-  | VoldN => mkvars (v_x r) (v_z r) (v_need r) (v_n r) (v_now r) (v_sec r) (v_num r) (v_length r) (v_size r) (v_i r) (v_o r) (v_s r) (v_v r) (v_offset r) (v_timestamp r) a (v_oldNow r)
-  | VoldNow => mkvars (v_x r) (v_z r) (v_need r) (v_n r) (v_now r) (v_sec r) (v_num r) (v_length r) (v_size r) (v_i r) (v_o r) (v_s r) (v_v r) (v_offset r) (v_timestamp r) (v_oldN r) a
+  | Vx => mkvars a (v_z r) (v_need r) (v_n r) (v_now r) (v_sec r) (v_num r) (v_length r) (v_size r) (v_i r) (v_o r) (v_s r) (v_v r) (v_offset r) (v_timestamp r) (v_oldN r) (v_oldNow r) (v_off r)
+  | Vz => mkvars (v_x r) a (v_need r) (v_n r) (v_now r) (v_sec r) (v_num r) (v_length r) (v_size r) (v_i r) (v_o r) (v_s r) (v_v r) (v_offset r) (v_timestamp r) (v_oldN r) (v_oldNow r) (v_off r)
+  | Vneed => mkvars (v_x r) (v_z r) a (v_n r) (v_now r) (v_sec r) (v_num r) (v_length r) (v_size r) (v_i r) (v_o r) (v_s r) (v_v r) (v_offset r) (v_timestamp r) (v_oldN r) (v_oldNow r) (v_off r)
+  | Vn => mkvars (v_x r) (v_z r) (v_need r) a (v_now r) (v_sec r) (v_num r) (v_length r) (v_size r) (v_i r) (v_o r) (v_s r) (v_v r) (v_offset r) (v_timestamp r) (v_oldN r) (v_oldNow r) (v_off r)
+  | Vnow => mkvars (v_x r) (v_z r) (v_need r) (v_n r) a (v_sec r) (v_num r) (v_length r) (v_size r) (v_i r) (v_o r) (v_s r) (v_v r) (v_offset r) (v_timestamp r) (v_oldN r) (v_oldNow r) (v_off r)
+  | Vsec => mkvars (v_x r) (v_z r) (v_need r) (v_n r) (v_now r) a (v_num r) (v_length r) (v_size r) (v_i r) (v_o r) (v_s r) (v_v r) (v_offset r) (v_timestamp r) (v_oldN r) (v_oldNow r) (v_off r)
+  | Vnum => mkvars (v_x r) (v_z r) (v_need r) (v_n r) (v_now r) (v_sec r) a (v_length r) (v_size r) (v_i r) (v_o r) (v_s r) (v_v r) (v_offset r) (v_timestamp r) (v_oldN r) (v_oldNow r) (v_off r)
+  | Vlength => mkvars (v_x r) (v_z r) (v_need r) (v_n r) (v_now r) (v_sec r) (v_num r) a (v_size r) (v_i r) (v_o r) (v_s r) (v_v r) (v_offset r) (v_timestamp r) (v_oldN r) (v_oldNow r) (v_off r)
+  | Vsize => mkvars (v_x r) (v_z r) (v_need r) (v_n r) (v_now r) (v_sec r) (v_num r) (v_length r) a (v_i r) (v_o r) (v_s r) (v_v r) (v_offset r) (v_timestamp r) (v_oldN r) (v_oldNow r) (v_off r)
+  | Vi => mkvars (v_x r) (v_z r) (v_need r) (v_n r) (v_now r) (v_sec r) (v_num r) (v_length r) (v_size r) a (v_o r) (v_s r) (v_v r) (v_offset r) (v_timestamp r) (v_oldN r) (v_oldNow r) (v_off r)
+  | Vo => mkvars (v_x r) (v_z r) (v_need r) (v_n r) (v_now r) (v_sec r) (v_num r) (v_length r) (v_size r) (v_i r) a (v_s r) (v_v r) (v_offset r) (v_timestamp r) (v_oldN r) (v_oldNow r) (v_off r)
+  | Vs => mkvars (v_x r) (v_z r) (v_need r) (v_n r) (v_now r) (v_sec r) (v_num r) (v_length r) (v_size r) (v_i r) (v_o r) a (v_v r) (v_offset r) (v_timestamp r) (v_oldN r) (v_oldNow r) (v_off r)
+  | Vv => mkvars (v_x r) (v_z r) (v_need r) (v_n r) (v_now r) (v_sec r) (v_num r) (v_length r) (v_size r) (v_i r) (v_o r) (v_s r) a (v_offset r) (v_timestamp r) (v_oldN r) (v_oldNow r) (v_off r)
+  | Voffset => mkvars (v_x r) (v_z r) (v_need r) (v_n r) (v_now r) (v_sec r) (v_num r) (v_length r) (v_size r) (v_i r) (v_o r) (v_s r) (v_v r) a (v_timestamp r) (v_oldN r) (v_oldNow r) (v_off r)
+  | Vtimestamp => mkvars (v_x r) (v_z r) (v_need r) (v_n r) (v_now r) (v_sec r) (v_num r) (v_length r) (v_size r) (v_i r) (v_o r) (v_s r) (v_v r) (v_offset r) a (v_oldN r) (v_oldNow r) (v_off r)
+  | VoldN => mkvars (v_x r) (v_z r) (v_need r) (v_n r) (v_now r) (v_sec r) (v_num r) (v_length r) (v_size r) (v_i r) (v_o r) (v_s r) (v_v r) (v_offset r) (v_timestamp r) a (v_oldNow r) (v_off r)
+  | VoldNow => mkvars (v_x r) (v_z r) (v_need r) (v_n r) (v_now r) (v_sec r) (v_num r) (v_length r) (v_size r) (v_i r) (v_o r) (v_s r) (v_v r) (v_offset r) (v_timestamp r) (v_oldN r) a (v_off r)
+  | Voff => mkvars (v_x r) (v_z r) (v_need r) (v_n r) (v_now r) (v_sec r) (v_num r) (v_length r) (v_size r) (v_i r) (v_o r) (v_s r) (v_v r) (v_offset r) (v_timestamp r) (v_oldN r) (v_oldNow r) a
   | VlenData | Vtab => r
   end.
-Definition vars0 : vars := mkvars 0 0 0 0 0 0 0 0 0 0 0 0 0 0 0 0 0.
+Definition vars0 : vars := mkvars 0 0 0 0 0 0 0 0 0 0 0 0 0 0 0 0 0 0.
 
 (* the Region object: Model.C14.st, field by field *)
 Definition st_offs (s : st) x := {| offs := x; tss := tss s; used := used s; hwm := hwm s; img := img s |}.
@@ -128,7 +130,7 @@ Definition look (σ : ist) : env := fun v =>
   end.
 
 Inductive res := RFin (txt : string) (σ : ist) | RBool (b : bool) | RStuck | RNoFuel | ROutside.
-Inductive callee := CFindSpace | CSetHead.
+Inductive callee := CFindSpace | CSetHead | CWriteAt.
 
 (* one physical write of d at p; the position moves behind it *)
 Definition phys (σ : ist) (p : N) (d : list N) : ist :=
@@ -252,6 +254,7 @@ Fixpoint exec (s : sem_stmt) (ret : string -> ist -> res) (k : ist -> res) (σ :
   | SEff0 EVarLength _ => k (setl σ Vlength 0%Z)
   | SErrCheck _ => k σ
   | SErrDo _ _ => k σ
+  | SIfWriterAt _ _ | SRetWriteAt _ _ | SRetWrite _ => RStuck     (* writeAt's own shapes: interpreted in C14_skel_fail.v *)
   | SRet t => ret t σ
   | SRetBool _ c => RBool (c (look σ))
   end.
@@ -282,7 +285,7 @@ Lemma all_skel_ok :
   map shape C14gen.ReadSector = expected_ReadSector /\ map shape C14gen.WriteSector = expected_WriteSector /\
   map shape C14gen.ExistSector = expected_ExistSector /\ map shape C14gen.PadToFullSector = expected_PadToFullSector /\
   map shape C14gen.findSpace = expected_findSpace /\ map shape C14gen.setHead = expected_setHead /\
-  C14gen.Region_fields = expected_Region_fields /\ C14gen.writeAt_text = expected_writeAt_text.
+  C14gen.Region_fields = expected_Region_fields /\ map shape C14gen.writeAt = expected_writeAt.
 Proof.
   repeat split.
 Qed.
